@@ -92,6 +92,35 @@ def numEq : Val → Val → Option Bool
   | .float a, .float b => some (a == b)
   | _, _ => none
 
+mutual
+/-- `==` as the statements fix it: numbers by value, strings / chars / booleans / bytes / null
+by identity of the value, arrays element-wise ("arrays whose elements are equal in that
+sense", C10) — two arrays of different lengths are never equal; `none` where no document
+says (maps, functions, values of different kinds) -/
+def specEq : Val → Val → Option Bool
+  | .int a, .int b => some (a.toInt = b.toInt)
+  | .int a, .float b => some (a.toFloat == b)
+  | .float a, .int b => some (a == b.toFloat)
+  | .float a, .float b => some (a == b)
+  | .str a, .str b => some (a == b)
+  | .char a, .char b => some (a == b)
+  | .bool a, .bool b => some (a == b)
+  | .byte a, .byte b => some (a == b)
+  | .null, .null => some true
+  | .arr _ xs, .arr _ ys => specEqList xs ys
+  | _, _ => none
+def specEqList : List Val → List Val → Option Bool
+  | [], [] => some true
+  | x :: xs, y :: ys =>
+    match specEq x y, specEqList xs ys with
+    | some a, some b => some (a && b)
+    -- one element pair is decided unequal: the arrays are unequal whatever the others are
+    | some false, none => some false
+    | none, some false => some false
+    | _, _ => none
+  | _, _ => some false
+end
+
 /-- what C09 demands of `l <op> r` -/
 def binary (op : Op) (l r : Val) : Expect :=
   match op with
@@ -105,6 +134,10 @@ def binary (op : Op) (l r : Val) : Expect :=
        | .char a, .char b => .value (.bool (if op == .eq then a == b else a != b))
        | .bool a, .bool b => .value (.bool (if op == .eq then a == b else a != b))
        | .null, .null => .value (.bool (op == .eq))
+       | .arr _ xs, .arr _ ys =>
+         (match specEqList xs ys with
+          | some b => .value (.bool (if op == .eq then b else !b))
+          | none => .any)
        | _, _ => .any)
   | _ =>
   match l, r with
